@@ -10,12 +10,14 @@ RULE = ("one evaluation = one (kind, module selection, with/without encryption l
         "stanza, strictly equal to the entity's own serialisation, when the package defining the entity is in the selection, "
         "and nothing (and no exception) when it is not. Incoming: every server-initiated stanza kind (documented shapes with "
         "generated values) is injected at the bottom; exactly one entity of the documented class, re-serialising to the "
-        "stanza, must reach the top when its module is selected, none otherwise. Distinct by (kind, selection, wiring, draw)")
+        "stanza, must reach the top when its module is selected, none otherwise. All cases of one stack run interleaved in a "
+        "seeded random order over that one stack (routing must not depend on earlier traffic); a reach monitor requires an "
+        "outgoing kind for every (layer, tag) send handler found in the assembled stack. Distinct by (kind, selection, wiring, draw)")
 ASSUMPTIONS = ["ownership of a kind = the package that defines its entity class (never the layers' own guards)",
                "iq results/errors are exercised through C08's request/reply path; encryption-specific stanzas through C03",
                "with the encryption layers present outgoing messages are judged at the probe below the protocol group"]
 REQUIRED = ["outgoing_cases", "incoming_cases", "expected_one_observed_one", "expected_zero_observed_zero", "selections", "kinds_outgoing", "kinds_incoming",
-            "with_enc", "without_enc"]
+            "with_enc", "without_enc", "send_handlers_seen", "direction_switches"]
 TIMEOUT = {"quick": 600, "thorough": 7200}
 
 INCOMING_FIXTURES = ["message_text", "message_media_contact", "message_media_downloadable_audio", "message_media_downloadable_image",
@@ -43,7 +45,37 @@ def outgoing_kinds():
     from vf.props import c09
     cat = c09.outgoing_catalogue()
     skip = {"keys-get", "keys-set", "retry-receipt-out", "enc-message-out", "request-upload", "pong"}
-    return {k: v for k, v in cat.items() if k not in skip}
+    out = {k: v for k, v in cat.items() if k not in skip}
+    # every tag for which some protocol layer has a send handler needs a kind (see send_handler_reach): the notification
+    # layer forwards outgoing <notification> entities
+    from yowsup.layers.protocol_notifications.protocolentities import NotificationProtocolEntity
+    out["notification-out"] = lambda r: NotificationProtocolEntity(r.choice(["picture", "status", "contacts"]), gen.msgid(r), gen.jid(r), gen.timestamp(r),
+                                                                  gen.s_from(r, "abcdefghij klmnop", r.randint(1, 10)), r.choice(["0", "1"]))
+    from yowsup.layers.protocol_calls.protocolentities import CallProtocolEntity
+    out["call-out"] = lambda r: CallProtocolEntity(gen.msgid(r), r.choice(["offer", "terminate", None]), gen.timestamp(r), _to=gen.jid(r))
+    return out
+
+
+# send handlers that forward nothing carrying their own tag: the ib layer's handler only lets CleanIq (tag iq) through
+SEND_HANDLER_EXEMPT = {"YowIbProtocolLayer:ib"}
+
+
+def send_handler_reach(acc, kit, out_tags):
+    """Reach monitor: every (layer, tag) with a send handler in the assembled stack must be exercised by an outgoing kind."""
+    from vf import probes
+    missing = []
+    n = 0
+    for l in probes.all_layers(kit.stack):
+        hm = getattr(l, "handleMap", None)
+        if not isinstance(hm, dict):
+            continue
+        for tag, pair in hm.items():
+            if pair[1] is not None:
+                n += 1
+                if tag not in out_tags and "%s:%s" % (type(l).__name__, tag) not in SEND_HANDLER_EXEMPT:
+                    missing.append("%s:%s" % (type(l).__name__, tag))
+    acc.count("send_handlers_seen", n)
+    return missing
 
 
 # the repository's fixtures use placeholders for enumerations ("message_type", "notif_type"): routing needs the real literals
@@ -187,6 +219,8 @@ def run(spec, acc):
         acc.count("with_enc" if enc else "without_enc")
         acc.seen("selection_names", sname)
         kit = stackkit.Kit(sel, enc)
+        cases = []
+        out_tags = set()
         for name in sorted(out):
             for k in range(spec["draws"]):
                 r = gen.rng(seed, ID, "out/%s/%d" % (name, k))
@@ -198,9 +232,11 @@ def run(spec, acc):
                     break
                 if k == 0:
                     acc.seen("kinds_out", name)
-                w = {"dir": "out", "kind": name, "selection": sname, "enc": enc, "draw": k}
-                acc.case(["o", name, sname, enc, k], nontrivial=True)
-                check_outgoing(acc, kit, name, ent, sel, enc, w)
+                    try:
+                        out_tags.add(ent.getTag())
+                    except Exception:
+                        pass
+                cases.append(("o", name, k, ent))
         for k in range(spec["draws"] * 3):
             r = gen.rng(seed, ID, "outm/%d" % k)
             try:
@@ -209,13 +245,31 @@ def run(spec, acc):
             except Exception:
                 continue
             acc.seen("kinds_out", name)
-            acc.case(["om", name, sname, enc, k], nontrivial=True)
-            check_outgoing(acc, kit, name, ent, sel, enc, {"dir": "out", "kind": name, "selection": sname, "enc": enc, "draw": k})
+            out_tags.add(ent.getTag())
+            cases.append(("om", name, k, ent))
         for name, cls, src in inc:
             acc.seen("kinds_in", name)
             for k in range(spec["draws"]):
                 r = gen.rng(seed, ID, "in/%s/%d" % (name, k))
-                tree = draw_incoming(r, src, name)
+                cases.append(("i", name, k, (cls, draw_incoming(r, src, name))))
+        missing = send_handler_reach(acc, kit, out_tags)
+        if missing:
+            acc.inconc("send handlers never exercised by an outgoing kind: %s" % sorted(set(missing))[:6])
+        # both directions interleaved in a seeded random order over the one stack: routing must not depend on what went
+        # through before (first half), then the plain order (second half of the draws) for comparability across seeds
+        order = gen.rng(seed, ID, "order/%s/%s" % (sname, enc))
+        order.shuffle(cases)
+        acc.count("interleaved_cases", len(cases))
+        prev = None
+        for kind, name, k, x in cases:
+            if prev is not None and prev != kind[0]:
+                acc.count("direction_switches")
+            prev = kind[0]
+            if kind in ("o", "om"):
+                acc.case([kind, name, sname, enc, k], nontrivial=True)
+                check_outgoing(acc, kit, name, x, sel, enc, {"dir": "out", "kind": name, "selection": sname, "enc": enc, "draw": k})
+            else:
+                cls, tree = x
                 w = {"dir": "in", "kind": name, "selection": sname, "enc": enc, "draw": k, "stanza": treeeq.describe(tree, 5)}
                 acc.case(["i", name, sname, enc, k], nontrivial=True)
                 check_incoming(acc, kit, name, cls, tree, sel, enc, w)
